@@ -90,14 +90,17 @@ def search(ctx):
 
 SPEC = {
     "id": "C01",
-    "gens": ["HlslGenTables", "HlslIntrinsicTables"],
-    "lean_modules": ["RsslVerif.Thm.C01"],
+    "gens": ["HlslGenTables", "HlslIntrinsicTables", "FmtTables", "ParseTables"],
+    "lean_modules": ["RsslVerif.Thm.C01", "RsslVerif.Thm.C09"],
     "theorems": [T + n for n in [
         "op_table_is_identity", "op_table_injective", "intrinsic_table_is_identity", "exporter_shape_as_modelled",
         "literal_value_preserved", "literal_total", "literal_int32_min",
         "gen_sem_expr", "gen_sem_expr_plain", "gen_sem_stmt", "gen_sem_stmts", "scope_block_push_is_append",
         "gen_sem_func", "gen_sem_program",
-        "cast_to_literal_dropped_changes_meaning"]],
+        "cast_to_literal_dropped_changes_meaning"]] + [
+        # the text leg (printing the exported tree and reading it back) is property C09's; its table obligations are
+        # C01 obligations too: a change of the printer's precedence / associativity tables breaks them
+        "RsslVerif.Thm.C09." + n for n in ["tables_agree", "assoc_agrees", "roundtrip_expr_partial", "paren_rule_matches_grammar"]],
     "harness": "c01",
     "nontrivial": nontrivial,
     "finding_key": finding_key,
@@ -108,7 +111,9 @@ SPEC = {
             "implicit and explicit conversions, ternary, comma, user functions with in/out/inout, static globals) run through the "
             "real front end; one request per user function x 8 argument vectors (zeros, edge values, random bits); the model "
             "recomputes the exporter's syntax tree from the serialised IR and runs both semantics; the oracle evaluates the IR and "
-            "the re-parsed emitted text of both HLSL flavours with independent Rust evaluators; non-trivial = function in the "
+            "the re-parsed emitted text of both HLSL flavours with independent Rust evaluators; plus, in every tier, the exhaustive "
+            "operator-nesting stream (every ordered pair of the 18 int/bool binary operators in both nestings, unary x binary, binary / "
+            "ternary / comma / assignment nestings; 1294 one-function programs on a 14-vector grid); non-trivial = function in the "
             "modelled subset, exported, and at least one vector ran to completion",
     "level_text": "Proof for the scalar subset (bool/int/uint/float, literal int/float; constants, locals, static globals, every "
                   "IntrinsicOp the exporter accepts, ?:, comma, casts, user-function calls with in/out/inout; expression / declaration / "
@@ -122,7 +127,13 @@ SPEC = {
                   "an independent evaluator. Partial: vectors, structs, arrays, enums, swizzles, switch, templates, overloads, default "
                   "parameters, intrinsic functions and 64/16-bit constants are outside the model; casts to a literal type are excluded "
                   "(for them the negation is proved with a witness and replayed); printing/parsing of the tree is C09's, name hygiene "
-                  "C15's.",
+                  "C15's. The text leg is explicit but composed informally: text_sem = gen_sem (this property: exported tree vs IR) composed "
+                  "with C09's round trip (the printed tree parses back to the same tree: tables_agree, assoc_agrees, "
+                  "paren_rule_matches_grammar, roundtrip_expr_partial, cited here as obligations so that a change of the printer's "
+                  "precedence tables breaks a C01 obligation); there is no single Lean theorem stating the composition. On the test side "
+                  "every ordered pair of integer/bool binary operators in both nestings, unary-in-binary, binary/ternary/comma/assignment "
+                  "nestings (1294 fully parenthesised functions) are compiled and the emitted text of both flavours is evaluated against "
+                  "the IR on a fixed argument grid in every tier.",
     "trusted_base": [
         "Lean 4.33 kernel; axioms propext / Classical.choice / Quot.sound only (audited by #print axioms)",
         "tools/gens/c01.py (HlslGenTables: IntrinsicOp / UnaryOp / BinOp / Literal / Constant variants, generate_intrinsic_op's form "
